@@ -188,7 +188,7 @@ fn subsets_as_cuts(positions: &[usize], mask: u64) -> Vec<usize> {
 }
 
 pub fn bodies() -> Vec<(&'static str, Vec<u8>)> {
-    let regular = br#"{"version":3,"sources":["a.js"],"names":["n"],"mappings":"AAAA,CAACA;AACA"}"#.to_vec();
+    let regular = br#"{"version":3,"sources":["a.js"],"names":["n"],"mappings":"AAAA,CAACA;AACA","file":"out.js","sourceRoot":"r","sourcesContent":["x"],"debug_id":"11111111-2222-3333-4444-555555555555"}"#.to_vec();
     let index = br#"{"version":3,"sections":[{"offset":{"line":0,"column":0},"map":{"version":3,"sources":["a"],"names":[],"mappings":"AAAA"}},{"offset":{"line":2,"column":1},"url":"u"}]}"#.to_vec();
     let hermes = br#"{"version":3,"sources":["a"],"names":[],"mappings":"AAAA","x_facebook_sources":[[{"names":["f"],"mappings":"AAA"}]]}"#.to_vec();
     let truncated = regular[..regular.len() - 9].to_vec();
